@@ -140,3 +140,70 @@ Print Assumptions c15_self_referential_macro. Print Assumptions c15_invoke_is_ch
 Print Assumptions c15_last_declaration_wins. Print Assumptions c15_relation_attributes_pass_through. Print Assumptions c15_reach_is_reachability.
 Print Assumptions c15_tc_accepted. Print Assumptions c15_verdicts. Print Assumptions c15_recursive_occurs.
 Print Assumptions c15_f9_accepted_later. Print Assumptions c15_agg_var_rejected. Print Assumptions c15_panic_is_a_clause_panic.
+
+(* ------------------------------------------------------------------ the position of an attribute
+   [text]: the program as written — an optional struct signature and the items, each with the outer attributes written in
+   front of it; [parse_text] mirrors how parse_ascent_program hands those attributes out (the attributes at the top are
+   read before the parser knows whether a signature follows: CheckModel stage 0). *)
+
+(* every attribute reaches what it is written in front of: the signature gets its own, every item gets its own *)
+Theorem c15_attributes_reach_their_item : forall X sig (items : list (list rattr * X)), distribute sig items = (sig, items).
+Proof. exact @distribute_exact. Qed.
+
+(* hence an attribute on a rule, a macro definition or an include_source! (of the program or of an included source) is a
+   violation at that item, whatever its position (first item or later) and with or without a signature ... *)
+Theorem c15_attribute_on_non_relation_occurs : forall c0 T k p q, attr_on_nonrel T p q ->
+  occurs c0 (parse_text T) k (VParse p q EUnexpectedAttr).
+Proof. exact attr_on_nonrel_occurs. Qed.
+(* ... so the text is rejected, by an error detected no later than that item ... *)
+Theorem c15_attribute_on_non_relation_rejected : forall c0 T k p q, attr_on_nonrel T p q ->
+  exists e l, check_text c0 T k = Reject e /\ check_loc c0 (parse_text T) k = Err e l /\ loc_le l (1, p, q).
+Proof. exact text_attr_rejected. Qed.
+(* ... with exactly this class when the item is the first of the text (the seeded shape), by the invocation itself *)
+Theorem c15_attribute_on_first_item_rejected : forall c0 T k a x tl, t_items T = (a, x) :: tl -> a <> [] ->
+  match x with BPlain b => nonrel0 b | BInclude _ => True end ->
+  invoke_text c0 T k = Reject EUnexpectedAttr /\ check_text c0 T k = Reject EUnexpectedAttr.
+Proof. exact first_item_attr_rejected. Qed.
+(* the class is reported for nothing else *)
+Theorem c15_attribute_rejection_sound : forall c0 T k, check_text c0 T k = Reject EUnexpectedAttr -> exists p q, attr_on_nonrel T p q.
+Proof. exact text_attr_reject_sound. Qed.
+(* an attribute on a relation is handed to that relation *)
+Theorem c15_relation_attributes_reach_relation : forall T p a n tys lat, nth_error (t_items T) p = Some (a, BPlain (BRel n tys lat)) ->
+  nth_error (p_items (parse_text T)) p = Some (IPlain (IRel {| d_name := n; d_tys := tys; d_lat := lat; d_attrs := a |})).
+Proof. exact rel_attrs_reach_relation. Qed.
+Example c15_attribute_positions :
+  map (fun T => (map (invoke_text [] T) allk, map (check_text [] T) allk)) attr_cases =
+  repeat (repeat (Reject EUnexpectedAttr) 4, repeat (Reject EUnexpectedAttr) 4) 81.
+Proof. exact attr_positions_rejected. Qed.
+
+(* ------------------------------------------------------------------ patterns
+   The lists of bound variables in the model's syntax are what syn_utils.rs pattern_get_vars reports; [pat_vars paren]
+   mirrors it, [paren] = "has an arm for Pat::Paren" (CheckModel.pattern_get_vars_traverses_paren: the value for the code
+   under verification).  The theorems above speak about the variables the helper reports, so "rebinding is rejected"
+   holds for the real binders exactly when the helper is complete. *)
+Theorem c15_pattern_vars_sound : forall V b (p : pat V), incl (pat_vars b p) (pat_binds p).
+Proof. exact @pat_vars_sound. Qed.
+Theorem c15_pattern_vars_complete_with_paren_arm : forall V (p : pat V), pat_vars true p = pat_binds p.
+Proof. exact @pat_vars_complete_with_paren_arm. Qed.
+Theorem c15_pattern_vars_complete_paren_free : forall V (p : pat V), paren_free p = true -> pat_vars false p = pat_binds p.
+Proof. exact @pat_vars_complete_paren_free. Qed.
+(* without the arm, "rebinding an already bound variable is rejected" is refuted by the faithful model: a rule that
+   rebinds v through a parenthesised pattern is accepted under all four macros (known finding
+   paren_pattern_escapes_shadow_check; bar(x) <-- foo(x), let (x) = 5 compiles and yields bar = [(5,)]) *)
+Theorem c15_rebinding_rejected_refuted : exists (mk : (pat ident -> list ident) -> program) (v : ident),
+  (forall k, check [] (mk pat_binds) k = Reject (EShadow v)) /\ (forall k, check [] (mk (pat_vars false)) k = Accept).
+Proof. exact shadow_paren_refutes. Qed.
+Example c15_rebinding_through_parentheses :
+  map (check [] (p_shadow_paren pat_binds)) allk = repeat (Reject (EShadow x)) 4 /\
+  map (check [] (p_shadow_paren (pat_vars true))) allk = repeat (Reject (EShadow x)) 4 /\
+  map (check [] (p_shadow_paren (pat_vars false))) allk = repeat Accept 4 /\
+  map (fun P => map (check [] P) allk) (p_shadow_paren_forms pat_binds) = repeat (repeat (Reject (EShadow x)) 4) 5 /\
+  map (fun P => map (check [] P) allk) (p_shadow_paren_forms (pat_vars false)) = repeat (repeat Accept 4) 5.
+Proof. exact shadow_paren_verdicts. Qed.
+
+Print Assumptions c15_attributes_reach_their_item. Print Assumptions c15_attribute_on_non_relation_occurs.
+Print Assumptions c15_attribute_on_non_relation_rejected. Print Assumptions c15_attribute_on_first_item_rejected.
+Print Assumptions c15_attribute_rejection_sound. Print Assumptions c15_relation_attributes_reach_relation.
+Print Assumptions c15_attribute_positions. Print Assumptions c15_pattern_vars_sound.
+Print Assumptions c15_pattern_vars_complete_with_paren_arm. Print Assumptions c15_pattern_vars_complete_paren_free.
+Print Assumptions c15_rebinding_rejected_refuted. Print Assumptions c15_rebinding_through_parentheses.
